@@ -31,6 +31,7 @@ JOBS = {
     "C01": [
         {"cmd": "c01-codec", "race": False, "batches": {"quick": 8, "thorough": 16}, "timeout": {"quick": 600, "thorough": 2400}},
         {"cmd": "c01-e2e", "race": False, "batches": {"quick": 2, "thorough": 4}, "timeout": {"quick": 600, "thorough": 2400}},
+        {"cmd": "c01-convert", "race": False, "timeout": {"quick": 300, "thorough": 900}},
         {"cmd": "c01-xe2e", "race": False, "batches": {"quick": 2, "thorough": 6}, "timeout": {"quick": 600, "thorough": 2400}},
     ],
     "C02": [
@@ -73,6 +74,7 @@ JOBS = {
     ],
     "C09": [
         {"cmd": "c09-engine", "race": True, "batches": {"quick": 2, "thorough": 6}, "timeout": {"quick": 900, "thorough": 3600}, "fatal_is_violation": "crash-only"},
+        {"cmd": "c09-goaway", "race": True, "batches": {"quick": 1, "thorough": 2}, "timeout": {"quick": 600, "thorough": 1800}, "fatal_is_violation": "crash-only"},
     ],
     "C10": [
         {"cmd": "c10-engine", "race": True, "batches": {"quick": 2, "thorough": 6}, "timeout": {"quick": 600, "thorough": 2400}, "fatal_is_violation": "crash-only"},
